@@ -294,6 +294,9 @@ def gen_C11(rnd, n, tier):
             c = retext(c)
         form = rnd.choice(["if", "while", "do", "switch"])
         if form == "if": body = [("if", [(c, [("cmd", "yes", "yes")])], [("cmd", "no", "no")]), ("cmd", "after", "after")]
+        elif form == "while" and i % 3 == 1:
+            # a condition-less loop whose exit test is an if with an AutoVar condition around a lone break
+            body = [("while", None, [("if", [(c, [("break",)])], None), ("cmd", "body", "body")]), ("cmd", "after", "after")]
         elif form == "while" and i % 3 == 0:
             inner = ("while", c, [("cmd", "body", "body"), ("if", [(("leaf", ("flag", "FLAG_Q", "")), [("continue",)])], None), ("cmd", "rest", "rest")])
             body = [("while", ("leaf", ("var", "VAR_W", "op", "<", 2)), [("cmd", "outer", "outer"), ("label", "Reroll", None), inner, ("cmd", "endround", "endround")]), ("cmd", "after", "after")]
